@@ -173,3 +173,58 @@ def c15_walks(nwalks, length):
                     ops.append(dict(op="BMap", b=0, k="del", which=which, v=val("int", n if rnd.random() < 0.8 else "~")))
             yield ops
     return gen
+
+
+# ------------------------------------------------------------------- C04
+def c04_walks(ncases):
+    KOCT = octk(32)
+
+    def gen(seed):
+        rnd = random.Random(seed * 15485863 + 4)
+
+        def wide_any():
+            r = rnd.random()
+            if r < 0.4:
+                return rnd.randrange(-2**63, 2**63)
+            if r < 0.7:
+                return rnd.randrange(0, 2**41)
+            return rnd.choice([0, 1, -1, 2**31 - 1, 2**31, 2**32, 2**40, 2**62, 2**63 - 1, -2**63])
+
+        for _ in range(ncases):
+            signed = rnd.random() < 0.5
+            now = rnd.choice([rnd.randrange(0, 2**40), rnd.randrange(1_600_000_000, 1_900_000_000), 0, 2**40])
+            ops = ([dict(op="Load", ring=0, via="create", doc="keys", keys=[KOCT]), dict(op="CNew", c=0),
+                    dict(op="CSetKey", c=0, alg="HS256", ring=0, key=0)] if signed else [dict(op="CNew", c=0)])
+            ops.append(dict(op="Clock", now=W(now)))
+            lee = {"exp": 0, "nbf": 0}
+            for _ in range(rnd.randrange(0, 6)):
+                x = rnd.random()
+                if x < 0.6:
+                    c = rnd.choice(["exp", "nbf"])
+                    l = rnd.choice([-1, 0, 1, 60, rnd.randrange(0, 2**40), 2**40, rnd.randrange(0, 100000)])
+                    lee[c] = l
+                    ops.append(dict(op="CLeeway", c=0, claim=c, secs=W(l)))
+                elif x < 0.85:
+                    ops.append(dict(op="CClaimSet", c=0, claim=rnd.choice(["iss", "sub", "aud"]), val=rnd.choice(["me", "you", "", "x y"])))
+                else:
+                    ops.append(dict(op="CClaimDel", c=0, claim=rnd.choice(["iss", "sub", "aud"])))
+            for _ in range(rnd.randrange(1, 5)):
+                m = []
+                for c in ("exp", "nbf"):
+                    r = rnd.random()
+                    if r < 0.15:
+                        continue
+                    if r < 0.65:   # near the boundary
+                        base = now - max(lee[c], 0) if c == "exp" else now + max(lee[c], 0)
+                        v = base + rnd.choice([-2, -1, 0, 1, 2, rnd.randrange(-1000, 1000)])
+                    else:
+                        v = wide_any()
+                    v = max(-2**63, min(2**63 - 1, v))
+                    m.append(mem(c, "int", "", W(v)))
+                for c in ("iss", "sub", "aud"):
+                    if rnd.random() < 0.5:
+                        m.append(mem(c, "str", rnd.choice(["me", "you", "", "x y", "Me"])))
+                tok = forge("HS256", pay_m=m, sigcls="valid", sigkey=KOCT) if signed else forge("none", pay_m=m)
+                ops.append(dict(op="Verify", c=0, tok=tok))
+            yield ops
+    return gen
